@@ -31,24 +31,30 @@ Definition has_share (r : registry) : bool := existsb is_share (r_hooks r).
    W1 no optimizer is registered for a shared/target network (those are re-created AFTER reinit_opt);
    W2 an algorithm that shares encoders through a hook is one whose activation mutation is skipped
       (activation_mutation re-creates the optimizers BEFORE Mutations.mutation runs the hooks);
-   W3 optimizer attribute names are unique. *)
+   W3 optimizer attribute names are unique;
+   W4 a shared/target network is not itself an evaluation network, W5 and shadows one evaluation network only. *)
 Definition wf_registry (r : registry) : bool :=
   forallb (fun c => forallb (fun n => negb (memN n (shared_names r))) (oc_nets c)) (r_opts r)
   && (negb (has_share r) || r_act_skip r)
-  && nodupN (map oc_name (r_opts r)).
+  && nodupN (map oc_name (r_opts r))
+  && forallb (fun s => negb (memN s (eval_names r))) (shared_names r)
+  && nodupN (shared_names r).
 
 (* ---- coherence ---------------------------------------------------------------------------------- *)
 (* networks whose own encoder parameters have been replaced by detached copies of the policy's *)
 Definition share_others (r : registry) : list name :=
   flat_map (fun h => match h with HShare _ others => others | _ => [] end) (r_hooks r).
 
+(* the same tensors, as sets, and as many of them (multi-agent optimizers list them sub-agent by sub-agent) *)
+Definition same_refs (l m : list loc) : Prop := length l = length m /\ incl l m /\ incl m l.
+
 Definition opt_ok (a : agent) (o : opt) : Prop :=
   exists c, find_optcfg (a_reg a) (o_name o) = Some c /\
-            o_refs o = want_refs a c /\                              (* exactly the live parameters, in order *)
+            same_refs (o_refs o) (want_refs a c) /\                  (* exactly the live parameters *)
             o_lr o = lookupN (o_lr o) (oc_lr c) (a_hps a).           (* the agent's current learning rate *)
 
 Definition arch_ok (a : agent) : Prop :=
-  forall g s, In g (r_groups (a_reg a)) -> In s (g_shared g) ->
+  forall g s, In g (r_groups (a_reg a)) -> In s (g_shared g) -> In s (net_names a) ->
               lookupN 0 s (a_arch a) = lookupN 0 (g_eval g) (a_arch a).
 
 Definition hooked (a : agent) : Prop :=
@@ -59,19 +65,16 @@ Definition Coherent (a : agent) : Prop :=
 
 (* executable form (used by K on every state of every history, and by the Examples) *)
 Definition Q_eqb (x y : Q) : bool := Z.eqb (Qnum x) (Qnum y) && Pos.eqb (Qden x) (Qden y).
-Fixpoint locs_eqb (l m : list loc) : bool :=
-  match l, m with
-  | [], [] => true
-  | x :: r, y :: s => N.eqb x y && locs_eqb r s
-  | _, _ => false
-  end.
+Definition same_refs_b (l m : list loc) : bool :=
+  Nat.eqb (length l) (length m) && forallb (fun x => mem x m) l && forallb (fun x => mem x l) m.
 Definition opt_ok_b (a : agent) (o : opt) : bool :=
   match find_optcfg (a_reg a) (o_name o) with
-  | Some c => locs_eqb (o_refs o) (want_refs a c) && Q_eqb (o_lr o) (lookupN (o_lr o) (oc_lr c) (a_hps a))
+  | Some c => same_refs_b (o_refs o) (want_refs a c) && Q_eqb (o_lr o) (lookupN (o_lr o) (oc_lr c) (a_hps a))
   | None => false
   end.
 Definition arch_ok_b (a : agent) : bool :=
-  forallb (fun g => forallb (fun s => N.eqb (lookupN 0 s (a_arch a)) (lookupN 0 (g_eval g) (a_arch a))) (g_shared g))
+  forallb (fun g => forallb (fun s => negb (memN s (net_names a)) ||
+                                      N.eqb (lookupN 0 s (a_arch a)) (lookupN 0 (g_eval g) (a_arch a))) (g_shared g))
           (r_groups (a_reg a)).
 Definition hooked_b (a : agent) : bool :=
   forallb (fun o => match blk a (o, cEnc) with [] => true | _ => false end) (share_others (a_reg a)).
